@@ -66,7 +66,7 @@ PROPS = {
         "assumptions": ["PoolState arithmetic and PoolKey parsing live in the dependency melstructs: modelled (exact Nat arithmetic for BigRational floor), compared on every seal"],
     },
     "C16": {
-        "modules": ["C16", "C16Hist", "C09Reach", "PinC16"],
+        "modules": ["C16", "C16Hist", "C16Run", "C09Reach", "PinC16"],
         "streams": [{"name": "seal", "quick": 180, "thorough": 7200}],
         "projection": "pools",
         "oracles": ["pools"],
@@ -119,7 +119,7 @@ PROPS = {
         # the property fixes which batches / blocks are accepted: an input on which the implementation accepts what the
         # proved model rejects (or the other way round) is an input on which the property fails
         "verdict_is_spec": True,
-        "modules": ["C05", "PinC05"],
+        "modules": ["C05", "C05Hist", "PinC05"],
         "streams": [{"name": "apply", "quick": 180, "thorough": 7200}, {"name": "seal", "quick": 90, "thorough": 3200}, {"name": "weight", "quick": 200, "thorough": 9000}],
         "projection": "fees",
         "oracles": ["fees"],
